@@ -190,10 +190,32 @@ func runCaseK(drv *vh.Driver, ci caseInput, gen *genState, nOps int, stopOnKnown
 				}
 				_ = a
 			}
+			// A transaction reinjected by a fork reset at a nonce that was pending goes STRAIGHT into the pending list
+			// (replacement in add) and can be demoted by demoteUnexecutables in the same op: it was pending, although
+			// no dump ever showed it there. Same root cause as any other demotion (F-C20a), recognised precisely.
+			reinjected := map[uint64]bool{}
+			if o.kind == "reset" && o.scenario == scFork {
+				incl := map[uint64]bool{}
+				for _, t := range o.incl {
+					incl[t.id] = true
+				}
+				for _, t := range o.disc {
+					if !incl[t.id] {
+						reinjected[t.id] = true
+					}
+				}
+			}
 			for a, ids := range post.queue {
 				was := map[uint64]bool{}
+				pendNonce := map[uint64]bool{}
 				for _, id := range pre.pending[a] {
 					was[id] = true
+					pendNonce[w.desc[id].nonce] = true
+				}
+				for _, id := range ids {
+					if reinjected[id] && !pre.all[id] && pendNonce[w.desc[id].nonce] {
+						was[id] = true
+					}
 				}
 				for _, id := range ids {
 					if was[id] {
